@@ -134,6 +134,7 @@ func udpRun(w *vt.Writer, r *rand.Rand, pool []*entities.InfoElement, dur time.D
 		tids := []int{}
 		late := -1 // manyTemplates: number of new templates still to send inside the first refresh burst
 		lastNew := time.Now()
+		var burstAt time.Time
 		for {
 			select {
 			case <-stopApp:
@@ -144,6 +145,7 @@ func udpRun(w *vt.Writer, r *rand.Rand, pool []*entities.InfoElement, dur time.D
 				select {
 				case <-burst:
 					late = 3
+					burstAt = time.Now()
 				default:
 				}
 			}
@@ -193,6 +195,9 @@ func udpRun(w *vt.Writer, r *rand.Rand, pool []*entities.InfoElement, dur time.D
 			w.Emit(vt.Ev{"e": "SendEnd", "ret": n, "err": err != nil, "ms0": m0, "ms": ms()})
 			if closing.Load() {
 				continue
+			}
+			if manyTemplates && !burstAt.IsZero() && time.Since(burstAt) < 60*time.Millisecond {
+				continue // data sets back to back while the refresher works through its burst
 			}
 			if manyTemplates && late != 0 {
 				if len(tids) >= 400 && late < 0 { // wait for the burst, react at once
